@@ -571,7 +571,20 @@ class Ovld:
     def unregister(self, fn):
         """Unregister a function."""
         self._attempt_modify()
-        self._defns = {sig: f for sig, f in self._defns.items() if f is not fn}
+        # Definitions that share a signature are told apart by their
+        # tiebreak (0 for the most recent one, then -1, -2...). Renumber
+        # what remains, so that removing a definition does not leave the
+        # older ones pushed down.
+        groups = {}
+        for sig, f in self._defns.items():
+            if f is not fn:
+                key = replace(sig, tiebreak=0)
+                groups.setdefault(key, []).append((sig.tiebreak, f))
+        self._defns = {}
+        for key, entries in groups.items():
+            entries.sort(key=lambda entry: entry[0], reverse=True)
+            for i, (_, f) in enumerate(entries):
+                self._defns[replace(key, tiebreak=-i)] = f
         self._update()
 
     def _update(self):
